@@ -474,3 +474,23 @@ func (g *TreeGen) call(d int, w Want) *Expr {
 	}
 	return Func(name, args...)
 }
+
+// FnTemplate is the exported view of one typed call template.
+type FnTemplate struct {
+	Name     string
+	Ret      Want
+	Args     []Want
+	ExprefAt int  // index of the expression-reference argument, -1 = none
+	ErBody   Want // what the expression-reference body should evaluate to
+	Variadic bool
+}
+
+// FnTemplates lists the typed call templates (every built-in function with
+// each of its principal argument-type combinations).
+func FnTemplates() []FnTemplate {
+	out := make([]FnTemplate, len(fnTemplates))
+	for i, t := range fnTemplates {
+		out[i] = FnTemplate{t.name, t.ret, append([]Want(nil), t.args...), t.expref, t.erBody, t.variadic}
+	}
+	return out
+}
